@@ -47,6 +47,6 @@ LLVMFuzzerTestOneInput(const uint8_t *data, size_t size)
         return 0;
     vh_rng rg;
     vh_rng_stream(&rg, data, size);
-    one_desc(0, 0, &rg);
+    one_desc(0, 1000, &rg); /* 1000: past the curated layouts, every choice comes from the input */
     return 0;
 }
